@@ -227,7 +227,8 @@ pub fn scenarios(thorough: bool) -> Vec<Scenario> {
     v.push(three_leaves_scenario("trio-three-leaves", if thorough { 4 } else { 3 }, &[]));
     v.push(array_deleted_scenario("pair-array-deleted-vs-edited-once", 1, if thorough { 4 } else { 3 }, &[]));
     v.push(array_deleted_scenario("pair-array-deleted-vs-edited-twice", 2, if thorough { 4 } else { 3 }, &[]));
-    v.extend(cross_scenarios(thorough));
+    // depth 2 in both tiers: every pair of operations from every prepared state
+    v.extend(cross_scenarios_depth(2));
     v
 }
 
